@@ -902,6 +902,17 @@ class Executor:
         items, tail = self._display(node, path)
         return PyList(items, tail, False)
 
+    def ev_Set(self, node, path):
+        # a set display of enumerable, concretely distinguishable items (names): kept as a list without duplicates - used for membership only
+        items, tail = self._display(node, path)
+        if tail is not None or not all(isinstance(x, (str, int)) for x in items):
+            raise Unsupported(f"set display of symbolic items at line {node.lineno}")
+        out = []
+        for x in items:
+            if x not in out:
+                out.append(x)
+        return PyList(out, None, False)
+
     def ev_Dict(self, node, path):
         d = PyDict()
         for k, v in zip(node.keys, node.values):
@@ -1762,11 +1773,34 @@ class Executor:
         return out
 
     def st_With(self, s, path):
+        suppress = None
         for item in s.items:
+            ce = item.context_expr
+            if isinstance(ce, ast.Call) and ast.unparse(ce.func).split(".")[-1] == "suppress":
+                suppress = (suppress or []) + [ast.unparse(a).split(".")[-1] for a in ce.args]
+                continue
             v = self.ev(item.context_expr, path)
             if item.optional_vars is not None:
                 self.assign(item.optional_vars, v, path)
-        return self.exec_block(s.body, [path])
+        outs = self.exec_block(s.body, [path])
+        if suppress is None:
+            return outs
+        # `with contextlib.suppress(E, ...)`: an exception of a listed class leaving the body is swallowed and control continues after the block.
+        # A failure injected at a call (exceptional contracts, S6) has no known class: it may or may not be one of the listed ones - both happen.
+        res = []
+        for p in outs:
+            if p.status != "raise":
+                res.append(p)
+                continue
+            injected = str(getattr(p.exc, "cls", "")).startswith("<raised by a call")
+            matches = injected or p.exc.cls in suppress or "Exception" in suppress or "BaseException" in suppress
+            if injected:
+                res.append(p.fork())
+            if matches:
+                p.status, p.exc = "run", None
+                p.ghost.setdefault("suppressed", []).append(s.lineno)
+            res.append(p)
+        return res
 
     def st_Try(self, s, path):
         # functional mode: the body is executed; handlers only for exceptions raised *explicitly* inside it
